@@ -1,5 +1,155 @@
-import Anything.Model.Display
-import Anything.Spec.Printed
+import Anything.Lemmas.DisplayValue
+/-!
+# C08 — printed decimals are faithful and never silently truncated
+
+Property theorems only; the proofs' machinery is in `Lemmas/PrintedParse`
+(printer/parser), `Lemmas/DisplayPaths` (long-division invariant and the three
+printing paths `formatBig`, `formatWhole`, small-number loop) and
+`Lemmas/DisplayValue` (value criterion).
+
+All theorems quantify over EVERY rational `r` and EVERY display specification
+with `limit ≥ 1`, `exponentLimit ≥ 1` and the continuation mark switched on; no
+bound on sizes. `C08_limit_zero_*` say what happens for `limit = 0`: the big and
+whole paths stay faithful, the small-number path prints the unreadable `…e-1`.
+
+`Spec.Printed.faithful r rd` is the specification's Boolean; `C08_faithful_unfolded`
+restates it in ordinary notation (`|r|`, `≤`, `<`).
+-/
+
 namespace Anything.Props.C08
-theorem C08_placeholder : True := trivial
+open Anything Anything.Display Anything.Spec.Printed Anything.Lemmas.Printed
+
+/-- The signed number a reading denotes. -/
+def signedValue (rd : Read) : Rat := if rd.neg then -rd.magnitude else rd.magnitude
+
+/-- **C08, main theorem.** For every rational and every display specification with a
+positive digit budget, the printed text is readable and what is read is `r` cut off
+toward zero at the last printed digit, with the right sign, and with the mark
+exactly when something non-zero was cut off. -/
+theorem C08_faithful (spec : Display.Spec) (r : Rat) (hl : 1 ≤ spec.limit)
+    (he : 1 ≤ spec.exponentLimit) (hc : spec.showContinuation = true) :
+    ∃ rd, readBack (fmt spec r) = some rd ∧ faithful r rd = true := by
+  obtain ⟨rd, h1, h2, _⟩ := good_faithful r _ (fmt_good spec hc he r (Or.inl hl))
+  exact ⟨rd, h1, h2⟩
+
+/-- The same in ordinary notation: `m ≤ |r| < m + ulp`, the mark flag is set exactly
+when `m ≠ |r|`, the sign flag exactly when `r < 0`. -/
+theorem C08_faithful_unfolded (spec : Display.Spec) (r : Rat) (hl : 1 ≤ spec.limit)
+    (he : 1 ≤ spec.exponentLimit) (hc : spec.showContinuation = true) :
+    ∃ rd, readBack (fmt spec r) = some rd ∧
+      rd.magnitude ≤ |r| ∧ |r| < rd.magnitude + rd.ulp ∧
+      (rd.mark = true ↔ rd.magnitude ≠ |r|) ∧ (rd.neg = true ↔ r < 0) := by
+  obtain ⟨rd, h1, h2⟩ := C08_faithful spec r hl he hc
+  exact ⟨rd, h1, (faithful_iff r rd).mp h2⟩
+
+/-- **The mark is present exactly when digits were cut off**: the character `…`
+occurs in the printed text iff the printed magnitude differs from `|r|`. -/
+theorem C08_mark_iff (spec : Display.Spec) (r : Rat) (hl : 1 ≤ spec.limit)
+    (he : 1 ≤ spec.exponentLimit) (hc : spec.showContinuation = true) :
+    ∃ rd, readBack (fmt spec r) = some rd ∧
+      ('…' ∈ fmt spec r ↔ rd.mark = true) ∧ ('…' ∈ fmt spec r ↔ rd.magnitude ≠ |r|) := by
+  obtain ⟨rd, h1, h2, h3⟩ := good_faithful r _ (fmt_good spec hc he r (Or.inl hl))
+  obtain ⟨_, _, h4, _⟩ := (faithful_iff r rd).mp h2
+  exact ⟨rd, h1, h3, h3.trans h4⟩
+
+/-- **Text without the mark reads back to exactly the value printed**, sign included. -/
+theorem C08_no_mark_exact (spec : Display.Spec) (r : Rat) (hl : 1 ≤ spec.limit)
+    (he : 1 ≤ spec.exponentLimit) (hc : spec.showContinuation = true)
+    (hno : '…' ∉ fmt spec r) :
+    ∃ rd, readBack (fmt spec r) = some rd ∧ signedValue rd = r := by
+  obtain ⟨rd, h1, h2, h3⟩ := C08_mark_iff spec r hl he hc
+  obtain ⟨rd', h1', _, _, _, h5⟩ := C08_faithful_unfolded spec r hl he hc
+  have hrd : rd' = rd := by rw [h1] at h1'; exact (Option.some.inj h1').symm
+  subst hrd
+  have hm : rd'.magnitude = |r| := by
+    by_contra h; exact hno (h3.mpr h)
+  refine ⟨rd', h1, ?_⟩
+  unfold signedValue
+  by_cases hr : r < 0
+  · rw [if_pos (h5.mpr hr), hm, abs_of_neg hr, neg_neg]
+  · have : rd'.neg = false := by
+      cases hn : rd'.neg with
+      | false => rfl
+      | true => exact absurd (h5.mp hn) hr
+    rw [this, hm, abs_of_nonneg (not_lt.mp hr)]
+    rfl
+
+/-- Conversely a text with the mark reads back to a value strictly closer to zero,
+less than one unit in the last printed place away. -/
+theorem C08_mark_strict (spec : Display.Spec) (r : Rat) (hl : 1 ≤ spec.limit)
+    (he : 1 ≤ spec.exponentLimit) (hc : spec.showContinuation = true)
+    (hmark : '…' ∈ fmt spec r) :
+    ∃ rd, readBack (fmt spec r) = some rd ∧ rd.magnitude < |r| ∧ |r| < rd.magnitude + rd.ulp := by
+  obtain ⟨rd, h1, h2, h3⟩ := C08_mark_iff spec r hl he hc
+  obtain ⟨rd', h1', h4, h5, _, _⟩ := C08_faithful_unfolded spec r hl he hc
+  have hrd : rd' = rd := by rw [h1] at h1'; exact (Option.some.inj h1').symm
+  subst hrd
+  exact ⟨rd', h1, lt_of_le_of_ne h4 (h3.mp hmark), h5⟩
+
+/-- **`limit = 0`, big and whole paths** (`r = 0` or `|r| ≥ 1`): still faithful; the
+text is the integer part (or its leading digit with an exponent) and the mark. -/
+theorem C08_limit_zero_faithful (spec : Display.Spec) (r : Rat)
+    (he : 1 ≤ spec.exponentLimit) (hc : spec.showContinuation = true)
+    (hr : r = 0 ∨ 1 ≤ |r|) :
+    ∃ rd, readBack (fmt spec r) = some rd ∧ faithful r rd = true := by
+  have h : 1 ≤ spec.limit ∨ r.den ≤ r.num.natAbs ∨ r.num = 0 := by
+    rcases hr with h | h
+    · exact Or.inr (Or.inr (Rat.num_eq_zero.mpr h))
+    · exact Or.inr (Or.inl ((one_le_abs_iff r).mp h))
+  obtain ⟨rd, h1, h2, _⟩ := good_faithful r _ (fmt_good spec hc he r h)
+  exact ⟨rd, h1, h2⟩
+
+/-- **`limit = 0`, small path** (`0 < |r| < 1`): the model (like the Rust code) prints
+`…e-1` whatever the value, which is not a decimal at all. The property's quantifier
+(`limit` from 1) excludes this case; it is recorded here as a finding. -/
+theorem C08_limit_zero_small_unreadable (spec : Display.Spec) (r : Rat)
+    (he : 1 ≤ spec.exponentLimit) (hc : spec.showContinuation = true) (hl : spec.limit = 0)
+    (h0 : r ≠ 0) (h1 : |r| < 1) :
+    fmt spec r = ['…', 'e', '-', '1'] ∧ readBack (fmt spec r) = none := by
+  have h := fmt_small_limit_zero spec hc he hl r h0 h1
+  rw [h]
+  exact ⟨rfl, by decide⟩
+
+/-! ## Non-vacuity: the hypotheses are satisfiable and every path is exercised -/
+
+/-- The default specification satisfies the hypotheses. -/
+example : 1 ≤ ({} : Display.Spec).limit ∧ 1 ≤ ({} : Display.Spec).exponentLimit ∧
+    ({} : Display.Spec).showContinuation = true := by decide
+
+/-- Small path, plain layout, digits cut off: `1/8` at two digits is `0.12…`. -/
+example : fmt { limit := 2, exponentLimit := 3 } (mkRat 1 8) = ['0', '.', '1', '2', '…'] := by
+  decide +kernel
+
+/-- Small path, exponent layout: `-1/300` at two digits, threshold 1 is `-3.3…e-3`. -/
+example : fmt { limit := 2, exponentLimit := 1 } (mkRat (-1) 300) =
+    ['-', '3', '.', '3', '…', 'e', '-', '3'] := by
+  decide +kernel
+
+/-- Whole path, nothing cut off: `5/4` is `1.25` and has no mark. -/
+example : fmt {} (mkRat 5 4) = ['1', '.', '2', '5'] ∧ '…' ∉ fmt {} (mkRat 5 4) := by
+  decide +kernel
+
+/-- Big path, whole digits cut off: `1234567/1000` at 2/3 is `1.23…e3`. -/
+example : fmt { limit := 2, exponentLimit := 3 } (mkRat 1234567 1000) =
+    ['1', '.', '2', '3', '…', 'e', '3'] := by
+  decide +kernel
+
+/-- Big path, only zeros cut off: `100000` at 2/3 is `1.00e5` without a mark. -/
+example : fmt { limit := 2, exponentLimit := 3 } (mkRat 100000 1) =
+    ['1', '.', '0', '0', 'e', '5'] := by
+  decide +kernel
+
+/-- The reader and `faithful` are not trivially true: a text with a digit dropped
+silently is rejected. -/
+example : (readBack ['0', '.', '1', '2']).map (faithful (mkRat 1 8)) = some false := by
+  decide +kernel
+
+/-- …and the correct text is accepted. -/
+example : (readBack ['0', '.', '1', '2', '…']).map (faithful (mkRat 1 8)) = some true := by
+  decide +kernel
+
+/-- The `limit = 0` finding is about a real case: `1/3` with no digit budget. -/
+example : fmt { limit := 0 } (mkRat 1 3) = ['…', 'e', '-', '1'] := by
+  decide +kernel
+
 end Anything.Props.C08
